@@ -48,7 +48,9 @@ def m_int(eng, st, args, kw, fr):
             n = v.n
             lo, hi = bounds(n)
             if lo <= 0:
-                raise Unsupported('log of possibly non-positive')
+                if eng.feasible(st.pc, zt(n) <= bvv(0)):
+                    raise Unsupported('log of possibly non-positive')
+                lo = 1
             k = fresh_int('ilog', lo.bit_length() - 1, hi.bit_length())
             one = bvv(1)
             # k in {L-1, L} where L = bit length of n  (float log2 rounding may hit the next integer)
@@ -177,6 +179,14 @@ def m_bisect(eng, st, args, kw, fr):
     xt = zt(x)
     lo, hi = bounds(x)
     ilo, ihi = _bisect.bisect(lst, lo), _bisect.bisect(lst, hi)
+    # tighten with the solver (merged values often have coarse intervals)
+    budget = 24
+    while ilo < ihi and budget and not eng.feasible(st.pc, xt < bvv(lst[ilo])):
+        ilo += 1
+        budget -= 1
+    while ilo < ihi and budget and not eng.feasible(st.pc, xt >= bvv(lst[ihi - 1])):
+        ihi -= 1
+        budget -= 1
     res = bvv(ihi)
     for i in range(ihi - 1, ilo - 1, -1):
         res = z3.If(xt < bvv(lst[i]), bvv(i), res)
